@@ -26,3 +26,15 @@ func verifReplPark(r *replication, req *appendReq) bool {
 	}
 	return false
 }
+
+// verifMaxAppendEntries, when non-zero, lowers the number of entries a single
+// AppendEntries request carries (maxAppendEntries), so that batching is
+// exercised with short logs.
+var verifMaxAppendEntries uint64
+
+func verifMaxAppend(n uint64) uint64 {
+	if m := verifMaxAppendEntries; m > 0 && n > m {
+		return m
+	}
+	return n
+}
